@@ -284,11 +284,27 @@ Proof.
   destruct H as [H1 H2]. destruct (IH _ H1) as [I1 I2]. split; [auto|congruence].
 Qed.
 
-Lemma bound_do_restart : forall m fastNew sf mv cs wbl ea alive,
-  bound_ok (do_restart m fastNew sf mv cs wbl ea alive).
+Lemma chunks_max_ref_ge : forall cs, 0 <= chunks_max_ref cs /\ forall c, In c cs -> ck_ref c <= chunks_max_ref cs.
 Proof.
-  intros. unfold do_restart.
-  set (last0 := if fastNew then _ else 0).
+  unfold chunks_max_ref. intros cs.
+  assert (H : forall a, a <= fold_left (fun a c => Z.max a (ck_ref c)) cs a /\
+                        forall c, In c cs -> ck_ref c <= fold_left (fun a c => Z.max a (ck_ref c)) cs a).
+  { induction cs as [|x cs IH]; simpl; intros a; [split; [lia|tauto]|].
+    destruct (IH (Z.max a (ck_ref x))) as [I1 I2]. split; [lia|].
+    intros c [<-|Hc]; [lia|auto]. }
+  apply H.
+Qed.
+
+Lemma fast_start_fixed_ge : forall cur f sg fastNew sf, cur <= fast_start true cur f sg fastNew sf.
+Proof.
+  intros. unfold fast_start. destruct fastNew; [|lia]. destruct sf as [[[id seg] cl]|]; lia.
+Qed.
+
+Lemma bound_do_restart_gen : forall fixed m fastNew sf mv cs wbl ea alive,
+  bound_ok (do_restart_gen fixed m fastNew sf mv cs wbl ea alive).
+Proof.
+  intros. unfold do_restart_gen.
+  set (last0 := fast_start _ _ _ _ _ _).
   set (stream := ckpt m ++ concat (segs m ++ [[]])).
   assert (Hi : rp_inv (last0, [], [])) by (simpl; tauto).
   pose proof (replay_fold_bound mv cs stream _ Hi) as H. simpl in H.
@@ -300,6 +316,29 @@ Proof.
   - intros x Hx. apply H3. exact Hx.
   - intros s Hs. apply filter_In in Hs. destruct Hs as [Hs _]. auto.
   - tauto.
+Qed.
+
+Lemma bound_do_restart : forall m fastNew sf mv cs wbl ea alive,
+  bound_ok (do_restart m fastNew sf mv cs wbl ea alive).
+Proof. intros. apply bound_do_restart_gen. Qed.
+
+(* fixed code: after a restart lastSeriesID is at least every series ref of the head-chunk files *)
+Lemma restart_chunk_bound : forall m fastNew sf mv cs wbl ea alive c,
+  In c cs -> ck_ref c <= last (do_restart m fastNew sf mv cs wbl ea alive).
+Proof.
+  intros m fastNew sf mv cs wbl ea alive c Hc. unfold do_restart, do_restart_gen.
+  set (last0 := fast_start _ _ _ _ _ _).
+  assert (Hl0 : ck_ref c <= last0).
+  { unfold last0. pose proof (fast_start_fixed_ge (chunks_max_ref cs) (first m) (segs m ++ [[]]) fastNew sf).
+    destruct (chunks_max_ref_ge cs) as [_ Hm]. specialize (Hm _ Hc). lia. }
+  set (stream := ckpt m ++ concat (segs m ++ [[]])).
+  assert (Hi : rp_inv (last0, [], [])) by (simpl; tauto).
+  pose proof (replay_fold_bound mv cs stream _ Hi) as H. simpl in H.
+  destruct (fold_left (replay_rec mv cs) stream (last0, [], [])) as [[lst h] multi] eqn:E.
+  destruct H as (H1 & H2 & _).
+  pose proof (replay_wbl_bound wbl (lst, h, multi) H1) as [W1 W2].
+  destruct (fold_left replay_wbl wbl (lst, h, multi)) as [[lst2 h2] multi2]. simpl in W1, W2. subst lst2.
+  simpl in *. lia.
 Qed.
 
 Lemma bound_step : forall m o, bound_ok m -> bound_ok (step m o).
@@ -827,7 +866,6 @@ Proof.
 Qed.
 
 Definition restart_ok (m : st) (sf : option (Z * Z * bool)) (cs : list chunk) (wbl : list rec) : Prop :=
-  (match sf with Some (id, _, _) => 0 <= id | None => True end) /\
   (forall c g l, In c cs -> In g (ck_ghosts c) -> In (RSeries (ck_ref c) l) (wal m) -> g = l) /\
   (forall r g t l, In (RSample r g t) wbl -> In (RSeries r l) (wal m) -> g = l).
 
@@ -857,12 +895,12 @@ Proof. intros. unfold wal. rewrite concat_app. simpl. now rewrite app_nil_r. Qed
 Lemma inv2_do_restart : forall m fastNew sf mv cs wbl ea alive,
   inv2 m -> restart_ok m sf cs wbl -> inv2 (do_restart m fastNew sf mv cs wbl ea alive).
 Proof.
-  intros m fastNew sf mv cs wbl ea alive [H1 H2 H3 H4 H5 H6 H7] (Hsf & Hcs & Hwbl).
-  unfold do_restart.
-  set (last0 := if fastNew then _ else 0).
+  intros m fastNew sf mv cs wbl ea alive [H1 H2 H3 H4 H5 H6 H7] (Hcs & Hwbl).
+  unfold do_restart, do_restart_gen.
+  set (last0 := fast_start _ _ _ _ _ _).
   assert (Hl0 : 0 <= last0).
-  { unfold last0. destruct fastNew; [|lia]. destruct sf as [[[id seg] cl]|]; [|lia].
-    destruct cl; [auto|]. now apply find_last_nonneg. }
+  { unfold last0. pose proof (fast_start_fixed_ge (chunks_max_ref cs) (first m) (segs m ++ [[]]) fastNew sf).
+    destruct (chunks_max_ref_ge cs) as [Hm _]. lia. }
   rewrite wal_snoc_nil.
   pose proof (replay_fold_RI (wal m) mv cs H2 Hcs (wal m) [] last0 [] []) as HR.
   pose proof (replay_fold_bound mv cs (wal m) (last0, [], [])) as HB.
@@ -973,4 +1011,82 @@ Proof.
   - intros s Hs Er. split.
     + apply (t_cache _ _ _ _ _ _ HT (ret, a_l a) s); simpl; auto.
     + eapply t_pure; eauto.
+Qed.
+
+(* ---------------------------------------------------------------- head-chunk files (fixed code) *)
+
+Definition acc_last (acc : Z * list series * list (Z * Z) * list Z * list rec * list rec) : Z :=
+  let '(lst, _, _, _, _, _) := acc in lst.
+
+Lemma append1_mono : forall lst h a, lst <= fst (fst (fst (fst (append1 lst h a)))).
+Proof.
+  intros. unfold append1.
+  destruct (by_ref h (a_cref a)); [|destruct (by_lset h (a_l a))];
+    destruct (a_ok a); try destruct (a_stale a); simpl; lia.
+Qed.
+
+Lemma tx_step_mono : forall acc a, acc_last acc <= acc_last (tx_step acc a).
+Proof.
+  intros [[[[[lst h] c] rs] sr] sm] a. unfold tx_step.
+  pose proof (append1_mono lst h a) as H.
+  destruct (append1 lst h a) as [[[[lst1 h1] ret] crt] smp]. simpl in *. exact H.
+Qed.
+
+Lemma tx_fold_mono : forall apps acc, acc_last acc <= acc_last (fold_left tx_step apps acc).
+Proof.
+  induction apps as [|a apps IH]; simpl; intros acc; [lia|].
+  pose proof (tx_step_mono acc a). specialize (IH (tx_step acc a)). lia.
+Qed.
+
+Definition is_restart (o : op) : bool := match o with ORestart _ _ _ _ _ _ _ _ _ => true | _ => false end.
+
+Lemma last_mono_step : forall m o, is_restart o = false -> last m <= last (step m o).
+Proof.
+  intros m o Ho. destruct o; simpl in *; try discriminate.
+  - unfold do_tx. pose proof (tx_fold_mono apps (last m, head m, cache m, [], [], [])) as H.
+    destruct (fold_left tx_step apps (last m, head m, cache m, [], [], [])) as [[[[[lst h] c] rs] sr] sm].
+    simpl in *. exact H.
+  - destruct (truncate_wal_fields (do_gc m dead) mint) as (E & _). rewrite E. simpl. lia.
+  - simpl. lia.
+  - simpl. lia.
+Qed.
+
+Lemma last_mono_fold : forall ops m, forallb (fun o => negb (is_restart o)) ops = true ->
+  last m <= last (fold_left step ops m).
+Proof.
+  induction ops as [|o ops IH]; simpl; intros m H; [lia|].
+  apply andb_true_iff in H. destruct H as [Ho Hr]. apply negb_true_iff in Ho.
+  pose proof (last_mono_step m o Ho). specialize (IH (step m o) Hr). lia.
+Qed.
+
+(* in the whole lifetime that follows a restart, lastSeriesID stays at or above every series ref
+   found in the head-chunk files at that restart *)
+Lemma chunk_refs_bounded : forall ops1 cl fo fn sf mv cs wbl ea alive ops2 c,
+  forallb (fun o => negb (is_restart o)) ops2 = true -> In c cs ->
+  ck_ref c <= last (run (ops1 ++ ORestart cl fo fn sf mv cs wbl ea alive :: ops2)).
+Proof.
+  intros ops1 cl fo fn sf mv cs wbl ea alive ops2 c Hn Hc. unfold run. rewrite fold_left_app. simpl.
+  pose proof (restart_chunk_bound (fold_left step ops1 init) fn sf mv cs wbl ea alive c Hc) as H1.
+  pose proof (last_mono_fold ops2 (do_restart (fold_left step ops1 init) fn sf mv cs wbl ea alive) Hn) as H2.
+  etransitivity; [exact H1|exact H2].
+Qed.
+
+Lemma fresh_ref_above_chunks : forall ops a,
+  let m := run ops in
+  by_ref (head m) (a_cref a) = None -> by_lset (head m) (a_l a) = None ->
+  let '(_, _, _, crt, _) := append1 (last m) (head m) a in
+  crt = [RSeries (last m + 1) (a_l a)] /\
+  (forall x r, In x (wal m) -> rec_alloc_ref x = Some r -> r < last m + 1) /\
+  (forall s, In s (head m) -> s_ref s < last m + 1) /\
+  (forall p, In p (cache m) -> fst p < last m + 1) /\
+  (forall ops1 cl fo fn sf mv cs wbl ea alive ops2 c,
+     ops = ops1 ++ ORestart cl fo fn sf mv cs wbl ea alive :: ops2 ->
+     forallb (fun o => negb (is_restart o)) ops2 = true -> In c cs -> ck_ref c < last m + 1).
+Proof.
+  intros ops a m E1 E2. pose proof (fresh_ref_above ops a E1 E2) as H. fold m in H.
+  destruct (append1 (last m) (head m) a) as [[[[x1 x2] x3] crt] x5].
+  destruct H as (Ha & Hb & Hc & Hd). repeat split; auto.
+  intros ops1 cl fo fn sf mv cs wbl ea alive ops2 c Eo Hn Hc'.
+  pose proof (chunk_refs_bounded ops1 cl fo fn sf mv cs wbl ea alive ops2 c Hn Hc') as Hle.
+  rewrite <- Eo in Hle. fold m in Hle. lia.
 Qed.
